@@ -204,9 +204,14 @@ def step (s : Sys) (te : TEv) : R Sys :=
       | .stop, _ | .stopctx _ _ _ _, _ =>
         match x.stops.find? (·.n = n) with
         | some sc =>
-          if x.flag ∨ x.stopPendingTrans then reject s!"instance {i}: a stop call returns while the flag is raised"
+          if r = .alreadyStopped ∧ x.stopPendingTrans ∧ x.state = 5 ∧ x.flag = false ∧ x.pendingFlag = none then
+            -- the call found e.ctx == nil (a StopWithContext had just completed its wait): it did nothing
+            pure { s1 with st := s1.st.set { x with stops := x.stops.filter (·.n ≠ n), stopPendingTrans := false } }
           else
-            let done := (match k with | .stopctx _ _ _ _ => r == .ok | _ => false)
+          -- (a Start that succeeded while this call was waiting began a new run: `running` again; the flag is the new run's)
+          if (x.flag ∧ ¬ x.running) ∨ x.stopPendingTrans then reject s!"instance {i}: a stop call returns while the flag is raised"
+          else
+            let done := (match k with | .stopctx _ _ _ _ => r == .ok && !x.running | _ => false)
             let x' := { x with stops := x.stops.filter (·.n ≠ n), ctxNil := x.ctxNil || done }
             let _ := sc
             pure { s1 with st := s1.st.set x' }
